@@ -262,6 +262,21 @@ Definition track_thread {A} (task_id : option Z) (next_id : Z) (total : Q) (xs :
   let '(id, setup) := track_setup task_id next_id total in
   setup ++ track_thread_go id xs sched 0 0 false.
 
+(* The consumer abandons the loop (break, or close() of the generator) while holding the k-th
+   element, 1 <= k <= length xs: the generator is closed at its `yield`, so the bookkeeping for that
+   element never runs.  Both paths end at k - 1: "completed" counts elements whose loop body finished. *)
+Definition track_direct_abandoned {A} (task_id : option Z) (next_id : Z) (total : Q) (xs : list A) (k : nat)
+  : list (tev A) :=
+  let '(id, setup) := track_setup task_id next_id total in
+  match skipn (k - 1) xs with
+  | x :: _ => setup ++ flat_map (fun x => [Yield x; Do (Advance id 1)]) (firstn (k - 1) xs) ++ [Yield x]
+  | [] => setup ++ flat_map (fun x => [Yield x; Do (Advance id 1)]) xs
+  end.
+Definition track_thread_abandoned {A} (task_id : option Z) (next_id : Z) (total : Q) (xs : list A) (k : nat)
+  : list (tev A) :=
+  let '(id, setup) := track_setup task_id next_id total in
+  setup ++ map Yield (firstn k xs) ++ [Do (Update id None (Some (qZ (Z.of_nat k - 1))) None None)].
+
 Definition yields {A} (l : list (tev A)) : list A :=
   flat_map (fun e => match e with Yield x => [x] | Do _ => [] end) l.
 Definition calls {A} (l : list (tev A)) : list op :=
